@@ -59,7 +59,9 @@ type Scenario struct {
 var (
 	exactNames = []string{"a.test", "b.test", "c.test", "d.test", "x.a.test", "y.x.a.test", "z.y.x.a.test", "w.a.test", "x.b.test"}
 	wildPats   = []string{"*.test", "*.a.test", "*.x.a.test", "*.b.test", "*.y.x.a.test"}
-	extraNames = []string{"q.a.test", "p.q.a.test", "q.x.a.test", "q.b.test", "q.test", "test", "other.example", "up.example"}
+	// "xa.test", "qb.test" and "wx.a.test"-like names end with the characters of a
+	// wildcard's domain without the label boundary in front of them.
+	extraNames = []string{"q.a.test", "p.q.a.test", "q.x.a.test", "q.b.test", "q.test", "test", "other.example", "up.example", "xa.test", "qb.test", "zx.a.test", "ya.test.example"}
 	addrs4     = []string{"10.0.0.1", "10.0.0.2", "10.0.0.3"}
 	addrs6     = []string{"fd00::1", "fd00::2", "fd00::1", "fd00::2", "::ffff:10.0.0.1"}
 	qtypes     = []uint16{dns.TypeA, dns.TypeA, dns.TypeA, dns.TypeAAAA, dns.TypeAAAA, dns.TypeTXT, dns.TypeHTTPS}
